@@ -7,17 +7,27 @@ From Ivv Require Import Core.CoreRelBase Core.CorePhase2AcctTr Core.CorePhase2Ac
 Import ListNotations.
 Local Open Scope Z_scope.
 
+Lemma ev_cases : forall e, plain11 e \/ is_call e \/ (exists n c mx t i g, e = TWait n c mx t i g) \/
+  (exists q n, e = TEnd q n) \/ (exists n f c, e = TRet (Some n) f c).
+Proof.
+  intros e. destruct e; cbn; try tauto.
+  - right; right; left. repeat eexists.
+  - destruct n; [right; right; right; right; repeat eexists|left; exact I].
+  - right; right; right; left. repeat eexists.
+Qed.
+
 Lemma ncall_step : forall m e, 0 <= ncall m -> 0 <= ncall (mon_step m e).
 Proof.
   intros m e N.
-  assert (G : forall he nc sp, sp3 (mon_step m e) = (he, nc, sp) -> 0 <= nc -> 0 <= ncall (mon_step m e)).
-  { intros he nc sp E NN. unfold sp3 in E. injection E as _ E2 _. rewrite E2. exact NN. }
-  destruct e;
-    try (match goal with |- context [mon_step m ?e] => apply (G _ _ _ (sp3_plain m e I)); exact N end);
-    try (match goal with |- context [mon_step m ?e] => apply (G _ _ _ (sp3_call m e I)); lia end).
-  - apply (G _ _ _ (sp3_wait m n call maxev timeout interest gnd)). lia.
-  - destruct n as [n|]; [apply (G _ _ _ (sp3_ret m n fds clk)); lia|apply (G _ _ _ (sp3_plain m (TRet None fds clk) I)); exact N].
-  - apply (G _ _ _ (sp3_end m quit numobjs)). lia.
+  destruct (ev_cases e) as [P|[C|[(n & c & mx & t & i & g & ->)|[(q & n & ->)|(n & f & c & ->)]]]].
+  - pose proof (sp3_plain m e P) as E. unfold sp3 in E. injection E as _ E2 _. rewrite E2. exact N.
+  - pose proof (sp3_call m e C) as E. unfold sp3 in E. injection E as _ E2 _. rewrite E2. lia.
+  - assert (E2 : ncall (mon_step m (TWait n c mx t i g)) = 0) by (exact (f_equal (fun x => snd (fst x)) (sp3_wait m n c mx t i g))).
+    rewrite E2. lia.
+  - assert (E2 : ncall (mon_step m (TEnd q n)) = 0) by (exact (f_equal (fun x => snd (fst x)) (sp3_end m q n))).
+    rewrite E2. lia.
+  - assert (E2 : ncall (mon_step m (TRet (Some n) f c)) = 0) by (exact (f_equal (fun x => snd (fst x)) (sp3_ret m n f c))).
+    rewrite E2. lia.
 Qed.
 
 Lemma ncall_nonneg : forall s, 0 <= ncall (mst s).
@@ -74,9 +84,8 @@ Proof.
   clear E F. generalize (mst s). induction (rev l) as [|e r IH]; intros m; cbn [fold_left]; [reflexivity|].
   inversion F' as [|? ? Pe Pr]; subst. rewrite (IH Pr).
   destruct (Q _ Pe) as [N|(n & f & c & ->)].
-  - destruct e; cbn [nr] in N; try contradiction;
-      try (match goal with |- context [mon_step m ?e] => pose proof (sp3_plain m e I) as X; unfold sp3 in X; injection X as _ _ X3; exact X3 end);
-      try (match goal with |- context [mon_step m ?e] => pose proof (sp3_call m e I) as X; unfold sp3 in X; injection X as _ _ X3; exact X3 end).
-    destruct n; [contradiction|]. pose proof (sp3_plain m (TRet None fds clk) I) as X; unfold sp3 in X; injection X as _ _ X3; exact X3.
-  - pose proof (sp3_ret m n f c) as X. unfold sp3 in X. injection X as _ _ X3. exact X3.
+  - destruct (nr_cases e N) as [[PP _]|C].
+    + exact (f_equal snd (sp3_plain m e PP)).
+    + exact (f_equal snd (sp3_call m e C)).
+  - exact (f_equal snd (sp3_ret m n f c)).
 Qed.
